@@ -5,6 +5,7 @@ package main
 // request, send (fails when the connection closed after admission), response, reset / time-out, connection close}.
 
 import (
+	"time"
 	"context"
 	"fmt"
 	"strings"
@@ -67,7 +68,7 @@ func (w *aworld) aapply(o op) string {
 	case "init":
 		if w.pkind == "multiplex" {
 			ctx := variable.NewVariableContext(context.Background())
-			waitFor(2e9, func() bool { return w.pool.CheckAndInit(ctx) })
+			waitFor(20e9, func() bool { return w.pool.CheckAndInit(ctx) })
 			w.registerNewClients()
 		}
 		return "ANop"
@@ -80,7 +81,7 @@ func (w *aworld) aapply(o op) string {
 		}
 		if w.pkind == "multiplex" {
 			w.pool.CheckAndInit(variable.NewVariableContext(context.Background()))
-			waitFor(2e9, func() bool { st, _, _ := sx.VerifMultiplexState(w.pool, 0); return st != 1 })
+			waitFor(20e9, func() bool { st, _, _ := sx.VerifMultiplexState(w.pool, 0); return st != 1 })
 		}
 		_, sender, reason := w.pool.NewStream(ctx, recv)
 		w.registerNewClients()
@@ -113,7 +114,7 @@ func (w *aworld) aapply(o op) string {
 	case "resp":
 		l := w.leases[o.A]
 		if l.live() && l.sent && l.cli >= 0 && w.clients[l.cli].up != nil && !w.clients[l.cli].closedMosnSide() {
-			w.wait("request-arrival", 1e9, func() bool {
+			w.wait("request-arrival", 20e9, func() bool {
 				uc := w.clients[l.cli].up
 				uc.mu.Lock()
 				defer uc.mu.Unlock()
@@ -137,7 +138,7 @@ func (w *aworld) aapply(o op) string {
 		w.connClose(c, map[string]string{"closer": "fin", "closel": "local"}[o.K])
 		for _, l := range held {
 			l := l
-			w.wait("reset-after-close", 1e9, func() bool { return !l.live() })
+			w.wait("reset-after-close", 20e9, func() bool { return !l.live() })
 		}
 		return fmt.Sprintf("AConnClose %d", o.A)
 	}
@@ -358,9 +359,14 @@ func c10(args []string) int {
 		}
 	}
 	sh.Close()
-	c10h2(run)
-	c10admit(run)
-	c10churn(run)
+	for _, ph := range []struct {
+		name string
+		f    func(*Run)
+	}{{"h2", c10h2}, {"admit", c10admit}, {"churn", c10churn}, {"connfail", c10connfail}} {
+		t0 := time.Now()
+		ph.f(run)
+		run.Sum.Extra["phase_ms_"+ph.name] = time.Since(t0).Milliseconds()
+	}
 	return run.Finish()
 }
 
